@@ -123,3 +123,13 @@ class Summary:
         open_k = taint.open_findings()
         lines = ['%s occurrences=%d %s' % (k, n, open_k[k]['trigger']) for k, n in sorted(self.known.items()) if k in open_k]
         return runner.finish(self.prop, paths, lines, inconclusive)
+
+
+def reaches_open_finding(spec, cap=8000, wall=30):
+    """Does a monitored run of this spec meet the trigger of an open state-corrupting finding (K2, K19)? The differential
+    harnesses drop such specs (counted): after the trigger the engine state is corrupt and two runs that should agree need not."""
+    from .. import core, taint
+    sp = dict(spec); sp['tie'] = 'native'
+    tr, Q, status, crash = core.run_spec(sp, cap=cap, wall=wall)
+    cut = taint.scan(sp, tr)
+    return cut['finding'] if cut else None
